@@ -5,7 +5,8 @@ from .. import core
 ID = "C03"
 THEOREMS = ["C03_iterator_total_and_shaped", "C03_commands_form_prefix", "C03_at_most_one_error_last", "C03_terminates",
             "C03_fused", "C03_parse_one_bounds", "C03_accessor_reads_in_bounds", "C03_unique_cids",
-            "C03_frame_layout_in_bounds", "C03_join_lengths", "C03_command_lengths_match_lorawan"]
+            "C03_frame_layout_in_bounds", "C03_join_lengths", "C03_command_lengths_match_lorawan",
+            "C03_fixed_constructor_view", "C03_mcgroupstatus_constructor_view", "C03_mcgroupstatus_constructor_refuses_short", "C03_constructor_matches_iterator"]
 SETS = ["dl_mac", "ul_mac", "dl_dut", "ul_dut", "dl_mc", "ul_mc"]
 
 
@@ -120,6 +121,47 @@ def expand(case):
     return ["mc_parse %s %s" % (t[1], core.hexs(pre + x.to_bytes(n, "big"))) for x in range(256 ** n)]
 
 
+def gen_new(rng, tier):
+    """the public payload constructors `XPayload::new(bytes)`: the variable-length McGroupStatusAnsPayload over every status byte x every
+    length 0..23, all strings up to 2 bytes, random longer strings; the macro-generated fixed-length template on two payload types"""
+    lines = ["pl_new mcstatus -"]
+    for b0 in range(256):
+        lines.append("pl_new mcstatus %02x" % b0)
+        for b1 in (range(256) if tier == "thorough" else (0, 1, 255, rng.below(256))):
+            lines.append("pl_new mcstatus %02x%02x" % (b0, b1))
+        for ln in range(2, 24):
+            lines.append("pl_new mcstatus %02x%s" % (b0, rng.bytes(ln).hex()))
+    for ln in range(0, 8):
+        for _ in range(4):
+            lines.append("pl_new linkadr %s" % (rng.bytes(ln).hex() or "-"))
+            lines.append("pl_new devstatus %s" % (rng.bytes(ln).hex() or "-"))
+    return lines
+
+
+def new_judge(case, impl, model):
+    """TS005 McGroupStatusAns, on the implementation alone: Status (RFU | NbTotalGroups(3) | AnsGroupMask(4)) followed by one
+    (McGroupID, McAddr) item of 5 bytes per bit set in AnsGroupMask.  A constructor either refuses the bytes or returns a view all of
+    whose accessors work: the view is the whole command and reports every item."""
+    t = case.split()
+    if impl in ("PANIC", "CRASH", "HANG"):
+        return {"kind": "an accessor of a successfully constructed payload view panicked (or the constructor did)", "constructor": t[1]}
+    if t[1] == "mcstatus":
+        d = bytes.fromhex(t[2]) if t[2] != "-" else b""
+        if not d:
+            want = "ERR"
+        else:
+            n = bin(d[0] & 15).count("1")
+            if len(d) < 1 + 5 * n:
+                want = "ERR"
+            else:
+                items = ["%d:%d" % (d[1 + 5 * k], int.from_bytes(d[2 + 5 * k:6 + 5 * k], "little")) for k in range(n)]
+                want = ("OK %d %d %d %s" % (1 + 5 * n, d[0] & 15, (d[0] >> 4) & 7, " ".join(items))).strip()
+        if impl != want:
+            return {"kind": "McGroupStatusAnsPayload::new: the view is not the whole command (status byte + 5 bytes per reported group) / short input accepted",
+                    "spec_output": want}
+    return None
+
+
 def run(rep, tier, rng):
     tr = translator()
     try:
@@ -137,8 +179,10 @@ def run(rep, tier, rng):
         return
     cases = gen(rng, tier, meta)
     core.diff_stage(rep, "X:C03:command-iterators+frame-parsers", cases, judge, expand)
+    core.diff_stage(rep, "X:C03:payload-constructors", gen_new(rng, tier), new_judge)
     rep.cov["rule"] = ("all byte strings of length 0..2 (quick) / 0..3 (thorough) through all six iterators by digest sweeps; every CID x "
                        "every truncation point of every command with all accessors called; valid and mutated command streams up to 255 bytes; "
-                       "frame parsers with all accessors on exhaustive short and random/mutated strings; every call under catch_unwind")
+                       "frame parsers with all accessors on exhaustive short and random/mutated strings; the public payload constructors (McGroupStatusAnsPayload::new over "
+                       "every status byte x lengths 0..23, the fixed-length template) with every accessor of the returned view; every call under catch_unwind")
     rep.cov["strings_inside_sweeps"] = sum(256 ** int(c.split()[3]) for c in cases if c.startswith("mc_sweep"))
     core.finish_proof_failures(rep)
